@@ -129,6 +129,7 @@ type Case struct {
 	Far   *Far   `json:"far,omitempty"`
 	Dup   *Dup   `json:"dup,omitempty"`
 	Multi *Multi `json:"multi,omitempty"`
+	Per   *Per   `json:"per,omitempty"`
 	Reps  int    `json:"reps"`
 }
 
@@ -187,7 +188,10 @@ func genCase(t *rapid.T, mode string) Case {
 	c.Periodic = rapid.IntRange(0, 9).Draw(t, "periodic") < 3
 	c.JobDurUs = rapid.SampledFrom([]int64{0, 0, 0, 100, 500, 1500}).Draw(t, "jobDur")
 	c.Resched = rapid.Bool().Draw(t, "resched")
-	switch rapid.SampledFrom([]string{"", "", "", "", "", "", "far", "dup", "multi", "", "", "", ""}).Draw(t, "shape") {
+	switch rapid.SampledFrom([]string{"", "", "", "", "", "", "far", "per", "dup", "multi", "per", "", "", "", ""}).Draw(t, "shape") {
+	case "per":
+		genPer(t, &c)
+		return c
 	case "multi":
 		genMulti(t, &c)
 		c.SyncTimer = rapid.Bool().Draw(t, "syncTimer")
@@ -321,6 +325,10 @@ func sanitise(c *Case) {
 	if c.HorizonUs > 2000000 {
 		c.HorizonUs = 2000000
 	}
+	if c.Per != nil {
+		c.Multi, c.Far, c.Dup, c.Recycle, c.Ops, c.Resched, c.Periodic, c.SyncTimer = nil, nil, nil, nil, nil, false, true, false
+		c.TicksUs, c.PeriodUs, c.HorizonUs = []int64{15000}, 0, 0
+	}
 	if c.Multi != nil {
 		c.Far, c.Dup, c.Recycle, c.Ops, c.Resched, c.Periodic = nil, nil, nil, nil, false, false
 		seen := map[string]bool{}
@@ -425,6 +433,7 @@ type obs struct {
 	rc         *recycleObs
 	sh         *shapeObs
 	mu         *multiObs
+	per        *perObs
 	// parkedAt: M2 with a runtime at least 20ms ahead: the instant at which the
 	// job goroutine was seen blocked in its select (-1: not seen).
 	parkedAt time.Duration
@@ -826,6 +835,9 @@ func callOp(s *advanced.Service, parentCancel context.CancelFunc, kind, ctxMode 
 // runRep executes the program once.  base is the goroutine count of the idle
 // process (including the canary).
 func runRep(c *Case, base int, can *canary, leaked map[string]bool, leakedSelect int) (*obs, error) {
+	if c.Per != nil {
+		return runPer(c, base, can, leaked, leakedSelect)
+	}
 	if c.Multi != nil {
 		return runMulti(c, base, can, leaked, leakedSelect)
 	}
@@ -1448,6 +1460,17 @@ func judgePeriodic(c *Case, o *obs) []verdict {
 			}
 		}
 	}
+	// a timer never fires early: every run that began clearly before the runtime the
+	// job was waiting for needs an early-run request of its own
+	reqs := 0
+	for _, r := range o.ops {
+		if (r.kind == "run" && r.err == nil) || r.kind == "runif" {
+			reqs++
+		}
+	}
+	if e := earlyRuns(o); e > reqs {
+		vs = append(vs, verdict{"periodic-ran-with-nothing-due", fmt.Sprintf("%d runs began before the runtime the job was waiting for, with at most %d successful early-run requests", e, reqs)})
+	}
 	vs = append(vs, judgeNameFree(c, o)...)
 	return vs
 }
@@ -1640,7 +1663,7 @@ func setRuntime(c *Case) func() {
 }
 
 func nontrivial(c *Case) bool {
-	if c.Recycle != nil || c.Far != nil || c.Dup != nil || c.Multi != nil {
+	if c.Recycle != nil || c.Far != nil || c.Dup != nil || c.Multi != nil || c.Per != nil {
 		return true
 	}
 	for _, op := range c.Ops {
@@ -1692,6 +1715,9 @@ func labels(c *Case) []string {
 	}
 	if c.Far != nil {
 		ls = append(ls, "far-future-runtime", "far-future-runtime:"+c.Far.When, "far-future-runtime:follow-"+c.Far.Follow)
+	}
+	if c.Per != nil {
+		ls = append(ls, "periodic:"+c.Per.Variant+c.Per.Err)
 	}
 	if c.Multi != nil {
 		ls = append(ls, "canceljobs-by-prefix")
@@ -1820,6 +1846,8 @@ func check(t ev.TB, c *Case) {
 		}
 		var vs []verdict
 		switch {
+		case c.Per != nil:
+			vs = judgePer(c, o)
 		case c.Multi != nil:
 			vs = judgeMulti(c, o)
 		case c.Far != nil:
@@ -1839,7 +1867,7 @@ func check(t ev.TB, c *Case) {
 		if o.perturbed {
 			perturbed++
 		}
-		if c.Far != nil || c.Dup != nil || c.Multi != nil {
+		if c.Far != nil || c.Dup != nil || c.Multi != nil || c.Per != nil {
 			// own judgement, no "clearly before" bookkeeping
 		} else if _, ok := clearCancel(c, o); ok {
 			clearCancels++
